@@ -8,6 +8,9 @@ import GIV.Model.Lockedfile
 namespace GIV.Lockedfile
 open GIV
 
+theorem finPc_eq (fd : Fd) (ret : Ret) : finPc fd ret = .unlock fd ret := by
+  simp [finPc, Gen.Lockedfile.unlockBeforeClose]
+
 /-! ### flags -/
 
 theorem testBit_three (i : Nat) : (3:Nat).testBit i = decide (i < 2) := by
@@ -260,15 +263,19 @@ theorem osStep_funlock_spec {w w' : World} {c fd f r} (h : osStep w c (.funlock 
     · simp at h; exact .inl ⟨_, h.2.symm, h.1.symm⟩
     · simp at h; exact .inr ⟨o, ho, h.2.symm, h.1.symm⟩
 
+/-- close(2): an error or a close of a shared description (nothing changes); or the last descriptor of the
+description goes away, and with it the lock. -/
 theorem osStep_close_spec {w w' : World} {c fd f r} (h : osStep w c (.close fd) f = some (w', r)) :
-    (∃ e, r = .err e ∧ w' = w) ∨ (∃ o, w.fds fd = some o ∧ r = .ok ∧ w' = closeFd w fd o.path) := by
+    (w' = w) ∨ (∃ o, w.fds fd = some o ∧ r = .ok ∧ w' = closeFd w fd o.path) := by
   simp only [osStep] at h
   split at h
-  · simp at h; exact .inl ⟨_, h.2.symm, h.1.symm⟩
+  · simp at h; exact .inl h.1.symm
   · rename_i o ho
     split at h
-    · simp at h; exact .inl ⟨_, h.2.symm, h.1.symm⟩
-    · simp at h; exact .inr ⟨o, ho, h.2.symm, h.1.symm⟩
+    · simp at h; exact .inl h.1.symm
+    · split at h
+      · simp at h; exact .inl h.1.symm
+      · simp at h; exact .inr ⟨o, ho, h.2.symm, h.1.symm⟩
 
 theorem osStep_nextFd {w w' : World} {c s f r} (h : osStep w c s f = some (w', r)) : w.nextFd ≤ w'.nextFd := by
   cases s <;> os_cases h
@@ -370,7 +377,7 @@ theorem osStep_WInv {w w' : World} {c s f r} (hw : WInv w) (h : osStep w c s f =
         · exact hw.exExcl p a b ((holdsFd_dropLock ..).1 ha).1 ((holdsFd_dropLock ..).1 hb).1
         · exact hw.holderOpen p a k' ((holdsFd_dropLock ..).1 ha).1
     | close fd =>
-      rcases osStep_close_spec h with ⟨e, _, rfl⟩ | ⟨o, ho, _, rfl⟩
+      rcases osStep_close_spec h with rfl | ⟨o, ho, _, rfl⟩
       · exact hw
       · refine ⟨fun fd' hle => ?_, fun p a b ha hb => ?_, fun p a k' ha => ?_⟩
         · rw [closeFd_fds]; split
@@ -407,7 +414,7 @@ theorem osStep_holds_other {w w' : World} {c s f r} (h : osStep w c s f = some (
       · rw [holdsFd_dropLock]; simp [hne]
     | close fd0 =>
       have hne : fd ≠ fd0 := fun e => hfd (by simp [Sys.ctl, e])
-      rcases osStep_close_spec h with ⟨e, _, rfl⟩ | ⟨o, ho, _, rfl⟩
+      rcases osStep_close_spec h with rfl | ⟨o, ho, _, rfl⟩
       · exact Iff.rfl
       · rw [holdsFd_closeFd]; simp [hne]
     | _ => simp [Sys.ctl] at hctl
@@ -435,7 +442,7 @@ theorem osStep_owns_other {w w' : World} {c s f r} (hw : WInv w) (h : osStep w c
       · exact ho.congr rfl
     | close fd0 =>
       have hne : fd ≠ fd0 := fun e => hfd (by simp [Sys.ctl, e])
-      rcases osStep_close_spec h with ⟨e, _, rfl⟩ | ⟨o, _, _, rfl⟩
+      rcases osStep_close_spec h with rfl | ⟨o, _, _, rfl⟩
       · exact ho
       · exact ho.congr (by rw [closeFd_fds, if_neg hne])
     | _ => simp [Sys.ctl] at hctl
